@@ -493,8 +493,14 @@ def slot_term(s):
         ref = "RefNone"
     if ref == "RefMany" and not s["name"].endswith("_refs"):
         ref = "RefNone"
-    return "{| s_name := %s; s_required := %s; s_default := %s; s_ref := %s |}" % (
-        ustr(s["name"]), "true" if s["required"] else "false", "true" if s["default"] else "false", ref)
+    emb = s.get("embedded")
+    kind = "KLeaf"
+    if emb and emb[0] == "one":
+        kind = "(KEmbedded %s)" % cstr(emb[1])
+    elif emb and emb[0] == "many":
+        kind = "(KListEmbedded %s)" % cstr(emb[1])
+    return "{| s_name := %s; s_required := %s; s_default := %s; s_ref := %s; s_kind := %s |}" % (
+        ustr(s["name"]), "true" if s["required"] else "false", "true" if s["default"] else "false", ref, kind)
 
 
 def ident(key):
@@ -521,8 +527,9 @@ def emit(d, dc=None):
         extra = collections.OrderedDict((k, c) for k, c in dc["classes"].items() if k not in d["classes"])
         _emit_classes(dc, extra, out, names, unknown)
         _emit_registry(dc, "live_custom", out, names)
-    out.append("Fixpoint class_named (k : string) (l : list (string * cls)) : option cls :=\n"
-               "  match l with [] => None | (k', c) :: r => if String.eqb k k' then Some c else class_named k r end.\n")
+    if dc is not None:
+        out.append("Definition all_classes_custom : list (string * cls) :=\n  [%s].\n" % ";\n   ".join(
+            "(%s, %s)" % (cstr(k), n) for k, n in names.items()))
     return "\n".join(out), unknown
 
 
